@@ -1098,7 +1098,8 @@ func (p *Program) trivialGetter(fn *ssa.Function) bool {
 	if v, ok := p.trivial[fn]; ok {
 		return v
 	}
-	ok := inTeleport(fn) && len(fn.Blocks) == 1 && fn.Signature.Results().Len() == 1 && len(fn.FreeVars) == 0 && !isGeneratedFn(p, fn) && !keepOpaqueGetter[fn.Name()]
+	ok := len(fn.Blocks) == 1 && fn.Signature.Results().Len() == 1 && len(fn.FreeVars) == 0 && !isGeneratedFn(p, fn) && !keepOpaqueGetter[fn.Name()]
+	external := !inTeleport(fn) // a dependency's getter: only plain field paths and conversions (no calls at all)
 	ncalls := 0
 	if ok {
 		for _, ins := range fn.Blocks[0].Instrs {
@@ -1118,7 +1119,7 @@ func (p *Program) trivialGetter(fn *ssa.Function) bool {
 			case *ssa.Call:
 				callee := t.Call.StaticCallee()
 				ncalls++
-				if t.Call.IsInvoke() || callee == nil || inTeleport(callee) || ncalls > 1 {
+				if t.Call.IsInvoke() || callee == nil || inTeleport(callee) || ncalls > 1 || external {
 					ok = false // at most one conversion-like call on field values (no store access chains)
 				}
 				for _, a := range t.Call.Args {
